@@ -34,7 +34,7 @@ def rep_case(r, k, G, acc, start, s, indel, with_chk, heap):
 
 
 def check_graph(r, k, G, n, starts=None):
-    acc = U.A(G)
+    acc = U.A_reuse(G)
     nv = len(G)
     strings = list(U.all_strings(n, nmin=k))
     for start in (range(nv) if starts is None else starts):
